@@ -45,6 +45,11 @@ func (c *Class) classIdentifierProcessing(
 	ctx.StartDefineStatic()
 	defer ctx.EndDefineStatic()
 
+	// `class << self` opens its own visibility section
+	isPrivate, isProtected := ctx.IsPrivate, ctx.IsProtected
+	ctx.IsPrivate, ctx.IsProtected = false, false
+	defer func() { ctx.IsPrivate, ctx.IsProtected = isPrivate, isProtected }()
+
 	for {
 		nextT, err := p.Read()
 		if err != nil {
